@@ -1673,9 +1673,59 @@ fn gen_c09_huge(rng: &mut Rng) -> Value {
     v
 }
 
+/// "for all capacities": rings of 64 - 260 and of 1025 - 1100 slots (sizes at which an implementation might batch its
+/// evictions, or grow and shrink its ring). Half: a stalled writer and `capacity` + a few appends (exactly the few
+/// oldest are lost); half: a backlog beyond the capacity, then the writer catches up completely, then a trickle of
+/// appends from two threads while the writer idles and wakes.
+fn gen_c09_mid(rng: &mut Rng) -> Value {
+    // (the draw that selected this stratum was made on a copy of the generator: skip it)
+    let _ = rng.below(120);
+    let stalled = rng.chance(0.4);
+    let cap = if rng.chance(if stalled { 0.7 } else { 0.25 }) { 64 + rng.below(197) } else { 1025 + rng.below(76) };
+    let mut v = gen_c09_long_stall(rng);
+    v["capacity"] = json!(cap);
+    v["mid_capacity"] = json!(true);
+    if stalled {
+        let n = cap + rng.below(40);
+        v["producers"] = json!([[{"op":"append","n": n}]]);
+        v["sched"] = gen_sched(rng, &SchedOpts { est_choices: 12 * n, threads: 2, jump_max_ns: 0, stall_clock_max_ns: 0, max_steps: 400_000 });
+        return v;
+    }
+    let interval = 100_000_000u64;
+    v["flush_interval_ns"] = json!(interval);
+    v["stalled_single"] = json!(false);
+    // 2 - 4 cycles of: a backlog beyond the capacity against a closed gate, the gate opened for all of it (and closed
+    // again behind it), then - around the writer's next periodic flushes - a few appends from two threads
+    let near = |rng: &mut Rng| (interval as f64 * [0.5, 0.9, 1.0, 1.0, 1.1, 2.0, 3.0][rng.usize_below(7)]) as u64;
+    let mut p1 = vec![];
+    let mut p2 = vec![json!({"op":"sleep","ns": interval / 2})];
+    let mut total = 0;
+    for _ in 0..(2 + rng.below(3)) {
+        let burst = cap + rng.below(60);
+        total += burst;
+        p1.push(json!({"op":"append","n": burst}));
+        p1.push(json!({"op":"gate","n": burst + 50}));
+        for _ in 0..(1 + rng.below(4)) {
+            p1.push(json!({"op":"sleep","ns": near(rng)}));
+            p1.push(json!({"op":"append","n": 1 + rng.below(3)}));
+            p2.push(json!({"op":"sleep","ns": near(rng)}));
+            p2.push(json!({"op":"append","n": 1 + rng.below(3)}));
+        }
+    }
+    let burst = total;
+    v["producers"] = json!([p1, p2]);
+    v["next_cost_ns"] = json!(*rng.pick(&[0u64, 1_000]));
+    v["sched"] = gen_sched(rng, &SchedOpts { est_choices: 14 * burst, threads: 3, jump_max_ns: 0, stall_clock_max_ns: 0, max_steps: 600_000 });
+    v
+}
+
 pub fn gen_c09(rng: &mut Rng, _tier: Tier) -> Value {
     if rng.chance(1.0 / 25_000.0) {
         return gen_c09_huge(rng);
+    }
+    // (decided on a copy of the generator so that no other plan moves)
+    if rng.clone().below(120) == 7 {
+        return gen_c09_mid(rng);
     }
     if rng.chance(0.01) {
         return gen_c09_long_stall(rng);
